@@ -1,4 +1,4 @@
 ---------------------------- MODULE MTInterfereMC ----------------------------
 EXTENDS MTInterfere, Json
-Emit == (~ENABLED Next) => PrintT(<<"H", ToJson([hist |-> hist, flushFails |-> flushFails, prev |-> prev])>>)
+Emit == (~ENABLED Next) => PrintT(<<"H", ToJson([hist |-> hist, flushFails |-> flushFails, prev0 |-> IF Len(hist) > 0 THEN hist[1].x ELSE prev])>>)
 =============================================================================
